@@ -84,7 +84,7 @@ SPEC = {
         "path_hosts": [("instagram.com", None, plain)],
         "vocab": ["p", "reel", "reels", "videos", "tv", "explore", "stories", "accounts", "user.name", "us-er_1",
                   "BxKRx5CHn5i", "bad!code", "@x", ""],
-        "extra_vocab": ["direct", "a b", "é"],
+        "extra_vocab": ["direct", "a b", "é", "Explore", "ACCOUNTS", "User.Name"],
         "decos": ["", "?igshid=1"],
         "qroutes": ["instagram.com/", "instagram.com", "instagram.com/p", "instagram.com/p/BxKRx5CHn5i", "instagram.com/user.name",
                     "instagram.com/reels"],
